@@ -54,6 +54,7 @@ class Verifier:
 
     def new_exec(self) -> Exec:
         ex = Exec(self.repo, self.reg)
+        ex.hooks.update(self.reg.exec_hooks)
         ex.spec = self.spec_factory(ex)
         return ex
 
